@@ -27,6 +27,14 @@ def stepC14 (s : Unit) (ws : List String) : Unit × Resp :=
       let r := scaledForMaxHash (maxHashForScaled n)
       (s, { model := toString r, spec := if n ≤ pow31 then toString n else "-" })
     else (s, { model := "bad-op" })
+  -- the same consumers on a sketch that carries a num next to its scaled (`[op, s, num]`), and through
+  -- ComputeParameters -> Signature::from_params (`[fp|fprec|fpsel, s, num_hashes|d, moltype, track]`):
+  -- num, molecule and abundance tracking have no part in the reported value
+  | [op, n, _, _, _] =>
+    if op == "fp" || op == "fprec" || op == "fpsel" then
+      let n := n.toNat!
+      (s, { model := toString (scaledForMaxHash (maxHashForScaled n)), spec := if n ≤ pow31 then toString n else "-" })
+    else (s, { model := "bad-op" })
   -- exhaustive walks done by the real code alone; the theorems `roundtrip` / `maxHash_antitone`
   -- are the model-side counterpart, so the model column is empty and the spec demands zero failures
   | ["sweep", _, _] => (s, { model := "-", spec := "fail=0 first=0" })
@@ -37,6 +45,11 @@ def stepC14 (s : Unit) (ws : List String) : Unit × Resp :=
     -- non-increasing over the whole 64-bit range (0 is the num sentinel, excluded by the generator)
     let ok := decide (maxHashForScaled hi ≤ maxHashForScaled lo)
     (s, { model := if ok then "antitone" else "inversion", spec := "antitone" })
+  | [op, n, _] =>
+    if ["new", "newtree", "ds", "dsn", "seln", "rec", "sel"].contains op then
+      let n := n.toNat!
+      (s, { model := toString (scaledForMaxHash (maxHashForScaled n)), spec := if n ≤ pow31 then toString n else "-" })
+    else (s, { model := "bad-op" })
   | _ => (s, { model := "bad-op" })
 
 def main : IO Unit := Driver.run () stepC14
